@@ -30,7 +30,8 @@ def view_types(T: Types):
     T.CallRec = Record("CallView", [("task", T.TaskRec), ("call_id", CALL)])
     T.Invocation = Record("InvocationView", [("invocation_id", ID), ("call", T.CallRec), ("task", T.TaskRec)])
     T.InvocationV = T.Invocation
-    T.RunnerCtx = Record("RunnerContext", [("runner_id", STR)])
+    # runner_id identifies the context that makes a request; root_runner_id is the top of its parent chain (a worker's runner)
+    T.RunnerCtx = Record("RunnerContext", [("runner_id", STR), ("root_runner_id", STR)])
     T.inv_of = z3.Function("inv_of", ID.sort(), T.Invocation.sort())          # immutable id -> invocation view
     T.key_of = z3.Function("key_of", ID.sort(), T.CCType.sort(), KEYS.sort())  # key projection per mode
     T.hist_t = MapT(ID, SeqT(T.Record))
